@@ -1900,12 +1900,18 @@ OP_ROL = "<<<"
 
 def ror(x, n):
     "high-level rotate right n bits"
-    return (x >> n | x << (x.size - n)) if x._is_cst else op(OP_ROR, x, n)
+    if x._is_cst and n._is_cst:
+        k = n.v % x.size
+        return cst((x.v >> k) | (x.v << (x.size - k)), x.size)
+    return op(OP_ROR, x, n)
 
 
 def rol(x, n):
     "high-level rotate left n bits"
-    return (x << n | x >> (x.size - n)) if x._is_cst else op(OP_ROL, x, n)
+    if x._is_cst and n._is_cst:
+        k = n.v % x.size
+        return cst((x.v << k) | (x.v >> (x.size - k)), x.size)
+    return op(OP_ROL, x, n)
 
 
 def ltu(x, y):
